@@ -90,5 +90,8 @@ Example C14_nonvacuous :
         ERand seed_site SeedTorch; ESeedCall init_site] = true
   /\ rng_confined pool_sites seed_site init_site
        [ESeedGuard seed_site GTruthiness; ERand seed_site SeedFromNumpy; ERand seed_site SeedNumpy;
-        ERand seed_site SeedTorch; ESeedCall init_site] = false.
+        ERand seed_site SeedTorch; ESeedCall init_site] = false
+  /\ rng_confined pool_sites seed_site init_site
+       [ERand seed_site SeedNumpy; ERand seed_site SeedTorch; ESeedCall init_site;
+        EEnvGuardedDraw "proposal/x.py::P.plot"%string "os.path.exists"%string] = false.
 Proof. vm_compute. repeat split. Qed.
